@@ -1,5 +1,5 @@
 (* C05: evaluation of the model on recorded cases (correspondence check). *)
-From CJ Require Import Common.Base C05.Model C05.ModelTcp.
+From CJ Require Import Common.Base C05.Model C05.ModelTcp C05.ModelProxy.
 
 (* error kinds as small numbers: 0 none, 1 eof, 2 reset, 3 pipe, 4 timeout, 5 closed, 6 refused,
    7 aborted, 8 unreach, 9 short, 10+n other n *)
@@ -120,12 +120,67 @@ Definition chk_tcp_slow (c : bool * N * N * N * bool * N) : bool :=
   | _ => true
   end.
 
+(* ---- tunnels in sequence through the real Proxy(): kinds 0 normal (the client hands over [ups] and stays silent,
+   the covert destination sends [downs] and ends its stream once it has everything), 1 dial fails (refused),
+   2 PROXY header cannot be written, 3 a direction leaves through a failing SetDeadline.
+   observed per tunnel: exit (0 relayed and summary printed, 1 dial error in the summary, 2 returned without summary),
+   bytes the covert / the client received, BytesUp, BytesDown, Proxy closed the client connection, summary printed,
+   whether the byte-level outcome is schedule-independent (compared) and the deltas of the process-wide ProxyStats
+   (newUp, newDown, completeUp, completeDown, zeroUp, zeroDown, completedSessions) *)
+Definition seq_tun := (N * list bspec * list bspec)%type.
+Definition seq_obs := (N * bspec * bspec * N * N * bool * bool * bool * (N * N * N * N * N * N * N))%type.
+
+Definition mk_script (chunks : list bytes) (final : option gerr) (dls : dscript) : tscript :=
+  {| t_reads := map (fun c => (c, None)) chunks ++ (match final with Some e => [([], Some e)] | None => [] end);
+     t_writes := []; t_dls := dls; t_cdst := None; t_csrc := None; t_csrc_blocks := false |}.
+
+Definition mk_pin (t : seq_tun) : pin :=
+  let '(k, ups, downs) := t in
+  let u := map bspec_val ups in let d := map bspec_val downs in
+  match k with
+  | 1 => {| p_dial := Some Refused; p_hdr := HNone; p_ka := KOther; p_up := empty_ts; p_down := empty_ts; p_sched := [] |}
+  | 2 => {| p_dial := None; p_hdr := HFail; p_ka := KOther; p_up := empty_ts; p_down := empty_ts; p_sched := [] |}
+  | 3 => {| p_dial := None; p_hdr := HNone; p_ka := KOther; p_up := mk_script [] None [Some (Other 3)];
+            p_down := empty_ts; p_sched := [] |}
+  | _ => (* the upload direction forwards all its chunks and waits in Read; the download direction forwards its
+            chunks, meets the end of stream and tears the tunnel down; then everything runs to the end *)
+         {| p_dial := None; p_hdr := HNone; p_ka := KOther; p_up := mk_script u None []; p_down := mk_script d (Some EOF) [];
+            p_sched := repeat TUp (2 + 4 * length u) ++ repeat TDown (2 + 4 * length d + 2) |}
+  end.
+
+Definition exit_code (x : pexit) : N :=
+  match x with XRelayed => 0 | XDialFailed _ => 1 | XHeaderFailed => 2 | XDialNil => 3 end.
+
+Definition chk_seq_one (pi : pin) (o : pout) (ob : seq_obs) : bool :=
+  let '(ex, cg, kg, bu, bd, closed, printed, cmp, (nu, nd, cu, cd, zu, zd, cs)) := ob in
+  let g1 := fst (proxy pstats0 pi) in
+  (exit_code (x_exit o) =? ex) && Bool.eqb (x_client_closed o) closed && Bool.eqb (x_printed o) printed &&
+  (ps_completed g1 =? cs) &&
+  (if cmp then
+     bspec_matches cg (x_up o) && bspec_matches kg (x_down o) && (x_bytes_up o =? bu) && (x_bytes_down o =? bd) &&
+     (ps_new_up g1 =? nu) && (ps_new_down g1 =? nd) && (ps_compl_up g1 =? cu) && (ps_compl_down g1 =? cd) &&
+     (ps_zero_up g1 =? zu) && (ps_zero_down g1 =? zd)
+   else true).
+
+Fixpoint chk_seq_all (pis : list pin) (outs : list pout) (obs : list seq_obs) : bool :=
+  match pis, outs, obs with
+  | [], [], [] => true
+  | pi :: pis', o :: outs', ob :: obs' => chk_seq_one pi o ob && chk_seq_all pis' outs' obs'
+  | _, _, _ => false
+  end.
+
+Definition chk_seq (c : list (seq_tun * seq_obs)) : bool :=
+  let pis := map (fun x => mk_pin (fst x)) c in
+  let '(g, outs) := proxy_seq pstats0 pis in
+  (ps_sessions g =? 0)%Z && chk_seq_all pis outs (map snd c).
+
 Inductive ccase :=
   | CHalf (c : ts_spec * bool * hobs)
   | CPair (c : ts_spec * ts_spec * list N * pobs)
   | CTcp (c : bool * bool * bool * bool * bool)
   | CTcpOps (c : sprobe * sprobe)
-  | CTcpSlow (c : bool * N * N * N * bool * N).
+  | CTcpSlow (c : bool * N * N * N * bool * N)
+  | CSeq (c : list (seq_tun * seq_obs)).
 Definition chk (c : ccase) : bool :=
   match c with CHalf x => chk_half x | CPair x => chk_pair x | CTcp x => chk_tcp x
-             | CTcpOps x => chk_tcp_ops x | CTcpSlow x => chk_tcp_slow x end.
+             | CTcpOps x => chk_tcp_ops x | CTcpSlow x => chk_tcp_slow x | CSeq x => chk_seq x end.
